@@ -84,6 +84,24 @@ def scenarios():
             stale = (cmp_in == 'METADATA' and m == 'flip') or (content_a and cmp_rd == 'METADATA' and not meta_a)
             out.append(dict(role='output_read_back', nested=nested, cmp='%s/%s/%s' % (cmp_in, cmp_out, cmp_rd), m=m,
                             stamp=stamp, prog=prog, mutate=mut(m, 'i'), want=want, stale_ok=stale))
+    # R4 a separate reader of an output; the output file itself is tampered between builds
+    for cmp_out, cmp_rd, nested in itertools.product(CMPS, CMPS, (False, True)):
+        for m in list(MUTS):
+            prod = bfn('a', [], cmp_out)
+            reader = sbn([rd('a', cmp_rd)], 7)
+            if nested:
+                reader = sbn([reader], 8)
+            prog = {'level': 0, 'root': [prod, reader]}
+            rebuilt = detects(cmp_out, m)
+            if rebuilt:
+                # rebuilt with the original content and a fresh mtime
+                rd_det = cmp_rd == 'METADATA'
+            else:
+                rd_det = detects(cmp_rd, m)
+            want = ([fname(prod, 0)] if rebuilt else []) + ([fname(n, 0) for n in _calls([reader])] if rd_det else [])
+            stale = (not rebuilt) and MUTS[m][1]
+            out.append(dict(role='output_read_back_tampered', nested=nested, cmp='%s/%s' % (cmp_out, cmp_rd), m=m,
+                            prog=prog, mutate=mut(m, 'a'), want=want, stale_ok=stale))
     return out
 
 
